@@ -89,6 +89,28 @@ def harness_hash():
     return sha_files(tree_files(HARNESS_SRC, ["src", "Cargo.toml", "Cargo.lock"]) + [os.path.join(VERIF, "known_findings.json")])
 
 
+_HH = {}
+
+
+def harness_hash_for(h):
+    """Source hash a cached verdict of harness h depends on: the shared modules of the harness crate
+    (lib.rs, oracle.rs, specs.rs, derived.rs, proofs/common.rs, proofs/stubs.rs, Cargo.*), known_findings.json
+    and the ONE proofs file that defines h. Proof files do not import one another and proofs/mod.rs is only a
+    list of `mod` lines, so adding or editing another proofs file cannot change h's verdict."""
+    f = h.get("file", "")
+    if f not in _HH:
+        pdir = os.path.join(HARNESS_SRC, "src", "proofs")
+        files = [p for p in tree_files(HARNESS_SRC, ["src", "Cargo.toml", "Cargo.lock"])
+                 if os.path.dirname(p) != pdir or os.path.basename(p) in ("common.rs", "stubs.rs", f)]
+        _HH[f] = sha_files(files + [os.path.join(VERIF, "known_findings.json")])
+    return _HH[f]
+
+
+def cache_key(h, ctx, playback, only_props, legacy=False):
+    hh = ctx["harness_hash"] if legacy else harness_hash_for(h)
+    return hashlib.sha256(json.dumps([h, ctx["repo_hash"], hh, ctx["cfgs"], playback, only_props], sort_keys=True).encode()).hexdigest()[:32]
+
+
 def prepare_alt_harness():
     if not ALT:
         return
@@ -276,7 +298,7 @@ def limits(mem_gb, big_stack):
 def run_harness(h, ctx, playback=False, only_props=None):
     """Run one Kani harness; returns a result dict (possibly from cache). The first run
     is without concrete playback (4x cheaper); a failing harness is re-run with it."""
-    key = hashlib.sha256(json.dumps([h, ctx["repo_hash"], ctx["harness_hash"], ctx["cfgs"], playback, only_props], sort_keys=True).encode()).hexdigest()[:32]
+    key = cache_key(h, ctx, playback, only_props)
     cpath = os.path.join(CACHE, key + ".json")
     if ctx["use_cache"] and os.path.exists(cpath):
         with open(cpath) as f:
